@@ -274,6 +274,96 @@ def G5():
         return True, f"array frame round trip raised {type(ex).__name__}: {ex}"
 
 
+def F25():
+    from bermuda import meyers_tri
+    try:
+        meyers_tri.plot_drip().to_dict(validate=True)
+        meyers_tri.plot_hose().to_dict(validate=True)
+        return False, ""
+    except TypeError as ex:
+        return True, f"plot_drip / plot_hose raise TypeError: {ex}"
+
+
+def F26():
+    import os
+    import tempfile
+
+    t = Triangle([mk(D(2020, 1, 1), D(2020, 12, 31), D(2020, 12, 31), {"x": 1})])
+    d = tempfile.mkdtemp()
+    try:
+        p = os.path.join(d, "a.dat")
+        t.to_binary(p, compress=False)
+        try:
+            return Triangle.from_binary(p, compress=False) != t, "explicit compress=False read back differently"
+        except Exception as ex:
+            return True, f"from_binary(path, compress=False) raised {type(ex).__name__}: {ex}"
+    finally:
+        import shutil
+
+        shutil.rmtree(d, ignore_errors=True)
+
+
+def F27():
+    import numpy as np
+    from bermuda.utils import thin
+
+    c = lambda e, a, z: mk(D(2020, 1, 1), D(2020, 12, 31), D(e, 12, 31), {"a": a, "z": z}, cls=CumulativeCell)  # noqa: E731
+    t = Triangle([c(2020, np.arange(4.0), np.array(5.0)), c(2021, np.arange(4.0) + 9, np.array(6.0))])
+    try:
+        r = thin(t, 2, seed=1)
+        return r.num_samples != 2, f"thinned to {r.num_samples} samples"
+    except TypeError as ex:
+        return True, f"thin raised TypeError on a 0-d array value: {ex}"
+
+
+def F28():
+    import datetime as dt
+    from bermuda import IncrementalCell
+
+    x = Triangle([IncrementalCell(dt.datetime(2020, 1, 1), dt.datetime(2020, 12, 31), dt.datetime(2019, 12, 31),
+                                  dt.datetime(2020, 12, 31), {"a": 1})])
+    if type(x.cells[0].prev_evaluation_date) is not dt.date:
+        return True, f"prev_evaluation_date stored as {type(x.cells[0].prev_evaluation_date).__name__}"
+    try:
+        return len(x.to_cumulative()) != 1, "to_cumulative lost the cell"
+    except Exception as ex:
+        return True, f"to_cumulative refused a complete chain built from datetimes: {ex}"
+
+
+def F29():
+    q = lambda ps, pe, e: mk(ps, pe, e, {"paid_loss": 1}, cls=CumulativeCell)  # noqa: E731
+    t = Triangle([q(D(2020, 1, 1), D(2020, 3, 31), D(2020, 3, 31)), q(D(2020, 1, 1), D(2020, 3, 31), D(2020, 6, 30)),
+                  q(D(2020, 4, 1), D(2020, 6, 30), D(2020, 6, 30))])
+    try:
+        r = t.make_right_triangle(dev_lag_unit="timedelta")
+        return len(r) != 1, f"{len(r)} cells added, expected 1"
+    except TypeError as ex:
+        return True, f"make_right_triangle(dev_lag_unit='timedelta') raised TypeError: {ex}"
+
+
+def F30():
+    import numpy as np
+    from bermuda.utils import blend
+
+    a = Triangle([mk(D(2020, 1, 1), D(2020, 3, 31), D(2020, 3, 31), {"x": np.int64(4)}, cls=CumulativeCell)])
+    b = Triangle([mk(D(2020, 1, 1), D(2020, 3, 31), D(2020, 3, 31), {"x": np.int64(8)}, cls=CumulativeCell)])
+    try:
+        r = blend([a, b], [0.5, 0.5], "linear")
+        return float(np.ravel(r.cells[0]["x"])[0]) != 6.0, f"blend gave {r.cells[0]['x']}"
+    except TypeError as ex:
+        return True, f"linear blend of np.int64 scalars raised TypeError: {ex}"
+
+
+def F31():
+    import numpy as np
+    from bermuda.utils.disaggregate import disaggregate_experience
+
+    t = Triangle([mk(D(2020, 1, 1), D(2020, 12, 31), D(2020, 12, 31), {"paid_loss": np.int64(120)}, cls=CumulativeCell)])
+    r = disaggregate_experience(t, 3)
+    bad = [c["paid_loss"] for c in r if isinstance(c["paid_loss"], np.ndarray)]
+    return bool(bad), f"scalar np.int64 input, sub-period values are arrays: {bad[:2]}"
+
+
 ALL = {k: v for k, v in globals().items() if k[:1] in "FG" and k[1:].isdigit() and callable(v)}
 
 if __name__ == "__main__":
